@@ -1,3 +1,1651 @@
-//! C11 — bounded checks (to be written)
-use crate::ctx::Ctx;
-pub fn run(_ctx: &mut Ctx) {}
+//! C11 — imperative editing of lax diagrams refines a plain list model (+ serde round trip and
+//! the documented JSON field names).
+//!
+//! Oracle: the plain list model `L` below (Vec of node labels, Vec of edge labels, per-edge
+//! ordered source/target lists, list of pending unification pairs, two interface lists).  Every
+//! builder call is replayed on `L` by plain loops written from the property statement and the
+//! complete library state (raw public fields) is compared with `L` after EVERY step; the
+//! renumbering after a deletion is unique (monotone onto 0..k) so the comparison is exact
+//! equality, not isomorphism.  Node/edge labels are (mostly) unique u16 tokens, so any mix-up of
+//! items is visible in the labels.  Bounds: see the note pushed at the end of `run`.
+use crate::ctx::{guard, Ctx, Rng};
+use open_hypergraphs::lax;
+use open_hypergraphs::lax::{EdgeId, Hyperedge, NodeId};
+use serde_json::{json, Value};
+use std::collections::BTreeSet;
+
+type LO = lax::OpenHypergraph<u16, u16>;
+type LH = lax::Hypergraph<u16, u16>;
+
+type Check = fn(&mut Ctx, &Value);
+const CHECKS: &[(&str, Check)] = &[
+    ("script", chk_script),
+    ("delete_nodes", chk_delete_nodes),
+    ("delete_edges", chk_delete_edges),
+    ("relabel", chk_relabel),
+    ("serde", chk_serde),
+    ("serde_readme", chk_serde_readme),
+];
+
+// ------------------------------------------------------------------------------------------------
+// the plain list model
+// ------------------------------------------------------------------------------------------------
+#[derive(Clone, Debug, PartialEq, Eq)]
+struct L {
+    nodes: Vec<u16>,
+    edges: Vec<u16>,
+    src: Vec<Vec<usize>>,
+    tgt: Vec<Vec<usize>>,
+    ql: Vec<usize>,
+    qr: Vec<usize>,
+    s: Vec<usize>,
+    t: Vec<usize>,
+}
+
+fn us(v: &Value) -> Option<Vec<usize>> {
+    v.as_array()?.iter().map(|x| x.as_u64().map(|y| y as usize)).collect()
+}
+fn u16s(v: &Value) -> Option<Vec<u16>> {
+    v.as_array()?.iter().map(|x| x.as_u64().and_then(|y| if y <= 65535 { Some(y as u16) } else { None })).collect()
+}
+fn uss(v: &Value) -> Option<Vec<Vec<usize>>> {
+    v.as_array()?.iter().map(us).collect()
+}
+fn u16v(v: &Value) -> Option<u16> {
+    v.as_u64().and_then(|y| if y <= 65535 { Some(y as u16) } else { None })
+}
+fn usv(v: &Value) -> Option<usize> {
+    v.as_u64().map(|y| y as usize)
+}
+
+impl L {
+    fn empty() -> L {
+        L { nodes: vec![], edges: vec![], src: vec![], tgt: vec![], ql: vec![], qr: vec![], s: vec![], t: vec![] }
+    }
+    fn json(&self) -> Value {
+        json!({"nodes": self.nodes, "edges": self.edges, "src": self.src, "tgt": self.tgt, "q": [self.ql, self.qr], "s": self.s, "t": self.t})
+    }
+    fn from_json(v: &Value) -> Option<L> {
+        if v.is_null() {
+            return Some(L::empty());
+        }
+        let q = v.get("q")?.as_array()?;
+        if q.len() != 2 {
+            return None;
+        }
+        Some(L {
+            nodes: u16s(v.get("nodes")?)?,
+            edges: u16s(v.get("edges")?)?,
+            src: uss(v.get("src")?)?,
+            tgt: uss(v.get("tgt")?)?,
+            ql: us(&q[0])?,
+            qr: us(&q[1])?,
+            s: us(v.get("s")?)?,
+            t: us(v.get("t")?)?,
+        })
+    }
+    fn valid(&self) -> bool {
+        let n = self.nodes.len();
+        self.src.len() == self.edges.len()
+            && self.tgt.len() == self.edges.len()
+            && self.ql.len() == self.qr.len()
+            && self.src.iter().chain(self.tgt.iter()).all(|l| l.iter().all(|&v| v < n))
+            && self.s.iter().chain(self.t.iter()).chain(self.ql.iter()).chain(self.qr.iter()).all(|&v| v < n)
+    }
+    fn is_empty(&self) -> bool {
+        self.nodes.is_empty() && self.edges.is_empty()
+    }
+    fn without_interface(&self) -> L {
+        let mut m = self.clone();
+        m.s = vec![];
+        m.t = vec![];
+        m
+    }
+    /// build the library value by writing the raw public fields (no builder call involved)
+    fn to_hyper(&self) -> LH {
+        let mut h = LH::empty();
+        h.nodes = self.nodes.clone();
+        h.edges = self.edges.clone();
+        h.adjacency = (0..self.src.len().max(self.tgt.len()))
+            .map(|e| Hyperedge { sources: nid(self.src.get(e).map(|v| &v[..]).unwrap_or(&[])), targets: nid(self.tgt.get(e).map(|v| &v[..]).unwrap_or(&[])) })
+            .collect();
+        h.quotient = (nid(&self.ql), nid(&self.qr));
+        h
+    }
+    fn to_open(&self) -> LO {
+        let mut f = LO::empty();
+        f.hypergraph = self.to_hyper();
+        f.sources = nid(&self.s);
+        f.targets = nid(&self.t);
+        f
+    }
+}
+
+fn nid(v: &[usize]) -> Vec<NodeId> {
+    v.iter().map(|&i| NodeId(i)).collect()
+}
+fn eid(v: &[usize]) -> Vec<EdgeId> {
+    v.iter().map(|&i| EdgeId(i)).collect()
+}
+fn un(v: &[NodeId]) -> Vec<usize> {
+    v.iter().map(|n| n.0).collect()
+}
+
+/// read the raw public fields of the library value
+fn obs_hyper(h: &LH) -> L {
+    L {
+        nodes: h.nodes.clone(),
+        edges: h.edges.clone(),
+        src: h.adjacency.iter().map(|e| un(&e.sources)).collect(),
+        tgt: h.adjacency.iter().map(|e| un(&e.targets)).collect(),
+        ql: un(&h.quotient.0),
+        qr: un(&h.quotient.1),
+        s: vec![],
+        t: vec![],
+    }
+}
+fn obs_open(f: &LO) -> L {
+    let mut m = obs_hyper(&f.hypergraph);
+    m.s = un(&f.sources);
+    m.t = un(&f.targets);
+    m
+}
+
+// ------------------------------------------------------------------------------------------------
+// builder steps
+// ------------------------------------------------------------------------------------------------
+#[derive(Clone, Debug, PartialEq)]
+enum Op {
+    NewNode(u16),
+    NewEdge(u16, Vec<usize>, Vec<usize>),
+    NewOperation(u16, Vec<u16>, Vec<u16>),
+    AddSource(usize, u16),
+    AddTarget(usize, u16),
+    Unify(usize, usize),
+    /// bool: use the witness-returning variant (hypergraph level)
+    DeleteNodes(Vec<usize>, bool),
+    /// bool: use the deprecated alias `delete_edge` (hypergraph level)
+    DeleteEdges(Vec<usize>, bool),
+    WithNodes(Vec<u16>),
+    MapNodes(u16),
+    WithEdges(Vec<u16>),
+    MapEdges(u16),
+    /// append to the two interface lists (open level only; plain field writes)
+    PushInterface(Vec<usize>, Vec<usize>),
+}
+
+impl Op {
+    fn name(&self) -> &'static str {
+        match self {
+            Op::NewNode(..) => "new-node",
+            Op::NewEdge(..) => "new-edge",
+            Op::NewOperation(..) => "new-operation",
+            Op::AddSource(..) => "add-edge-source",
+            Op::AddTarget(..) => "add-edge-target",
+            Op::Unify(..) => "unify",
+            Op::DeleteNodes(..) => "delete-nodes",
+            Op::DeleteEdges(..) => "delete-edges",
+            Op::WithNodes(..) => "with-nodes",
+            Op::MapNodes(..) => "map-nodes",
+            Op::WithEdges(..) => "with-edges",
+            Op::MapEdges(..) => "map-edges",
+            Op::PushInterface(..) => "push-interface",
+        }
+    }
+    fn json(&self) -> Value {
+        match self {
+            Op::NewNode(w) => json!(["new_node", w]),
+            Op::NewEdge(x, s, t) => json!(["new_edge", x, s, t]),
+            Op::NewOperation(x, s, t) => json!(["new_operation", x, s, t]),
+            Op::AddSource(e, w) => json!(["add_edge_source", e, w]),
+            Op::AddTarget(e, w) => json!(["add_edge_target", e, w]),
+            Op::Unify(v, w) => json!(["unify", v, w]),
+            Op::DeleteNodes(ids, false) => json!(["delete_nodes", ids]),
+            Op::DeleteNodes(ids, true) => json!(["delete_nodes_witness", ids]),
+            Op::DeleteEdges(ids, false) => json!(["delete_edges", ids]),
+            Op::DeleteEdges(ids, true) => json!(["delete_edge", ids]),
+            Op::WithNodes(v) => json!(["with_nodes", v]),
+            Op::MapNodes(d) => json!(["map_nodes", d]),
+            Op::WithEdges(v) => json!(["with_edges", v]),
+            Op::MapEdges(d) => json!(["map_edges", d]),
+            Op::PushInterface(s, t) => json!(["push_interface", s, t]),
+        }
+    }
+    fn from_json(v: &Value) -> Option<Op> {
+        let a = v.as_array()?;
+        let name = a.first()?.as_str()?;
+        let g = |i: usize| a.get(i);
+        Some(match name {
+            "new_node" => Op::NewNode(u16v(g(1)?)?),
+            "new_edge" => Op::NewEdge(u16v(g(1)?)?, us(g(2)?)?, us(g(3)?)?),
+            "new_operation" => Op::NewOperation(u16v(g(1)?)?, u16s(g(2)?)?, u16s(g(3)?)?),
+            "add_edge_source" => Op::AddSource(usv(g(1)?)?, u16v(g(2)?)?),
+            "add_edge_target" => Op::AddTarget(usv(g(1)?)?, u16v(g(2)?)?),
+            "unify" => Op::Unify(usv(g(1)?)?, usv(g(2)?)?),
+            "delete_nodes" => Op::DeleteNodes(us(g(1)?)?, false),
+            "delete_nodes_witness" => Op::DeleteNodes(us(g(1)?)?, true),
+            "delete_edges" => Op::DeleteEdges(us(g(1)?)?, false),
+            "delete_edge" => Op::DeleteEdges(us(g(1)?)?, true),
+            "with_nodes" => Op::WithNodes(u16s(g(1)?)?),
+            "map_nodes" => Op::MapNodes(u16v(g(1)?)?),
+            "with_edges" => Op::WithEdges(u16s(g(1)?)?),
+            "map_edges" => Op::MapEdges(u16v(g(1)?)?),
+            "push_interface" => Op::PushInterface(us(g(1)?)?, us(g(2)?)?),
+            _ => return None,
+        })
+    }
+}
+
+/// the relabelling function used by map_nodes / map_edges (injective on u16)
+fn relabel_fn(x: u16, d: u16) -> u16 {
+    x.wrapping_mul(7).wrapping_add(d)
+}
+
+/// what the model says a step returns
+#[derive(Clone, Debug, PartialEq)]
+enum Exp {
+    Node(usize),
+    Edge(usize),
+    Operation(usize, Vec<usize>, Vec<usize>),
+    Unit,
+    /// deletion of nodes: the reported renumbering
+    Witness(Vec<Option<usize>>),
+    /// deletion with an out-of-range identifier: the call must be rejected
+    Reject,
+    /// relabelling: None because of a length mismatch / Some
+    RelabelNone,
+    Relabeled,
+}
+
+/// are the arguments of a non-deleting step inside the domain of the property (valid identifiers)?
+fn op_in_domain(m: &L, op: &Op, open: bool) -> bool {
+    let n = m.nodes.len();
+    let k = m.edges.len();
+    match op {
+        Op::NewEdge(_, s, t) => s.iter().chain(t.iter()).all(|&v| v < n),
+        Op::AddSource(e, _) | Op::AddTarget(e, _) => *e < k,
+        Op::Unify(v, w) => *v < n && *w < n,
+        Op::PushInterface(s, t) => open && s.iter().chain(t.iter()).all(|&v| v < n),
+        _ => true,
+    }
+}
+
+/// deleting nodes on the list model, straight from the statement.  None = rejected.
+fn model_delete_nodes(m: &L, ids: &[usize]) -> Option<(L, Vec<Option<usize>>)> {
+    let n = m.nodes.len();
+    // rejects out-of-range identifiers
+    for &i in ids {
+        if i >= n {
+            return None;
+        }
+    }
+    // exactly the named items go (naming an item twice is the same as naming it once)
+    let named = |i: usize| ids.iter().any(|&j| j == i);
+    // survivors are renumbered monotonically: a survivor's new number is the number of survivors before it
+    let mut renum: Vec<Option<usize>> = vec![None; n];
+    let mut nodes = vec![];
+    for i in 0..n {
+        if !named(i) {
+            renum[i] = Some(nodes.len());
+            nodes.push(m.nodes[i]);
+        }
+    }
+    // hyperedge references and interface entries that mention a deleted node are dropped, the rest renumbered
+    let keep = |l: &Vec<usize>| -> Vec<usize> {
+        let mut out = vec![];
+        for &v in l {
+            if let Some(j) = renum[v] {
+                out.push(j);
+            }
+        }
+        out
+    };
+    // a pending unification that mentions a deleted node (on either side) is dropped
+    let mut ql = vec![];
+    let mut qr = vec![];
+    for p in 0..m.ql.len() {
+        match (renum[m.ql[p]], renum[m.qr[p]]) {
+            (Some(a), Some(b)) => {
+                ql.push(a);
+                qr.push(b);
+            }
+            _ => {}
+        }
+    }
+    let out = L {
+        nodes,
+        edges: m.edges.clone(), // nothing else is touched: every hyperedge stays, even if it lost all its nodes
+        src: m.src.iter().map(keep).collect(),
+        tgt: m.tgt.iter().map(keep).collect(),
+        ql,
+        qr,
+        s: keep(&m.s),
+        t: keep(&m.t),
+    };
+    Some((out, renum))
+}
+
+/// deleting hyperedges on the list model.  None = rejected.
+fn model_delete_edges(m: &L, ids: &[usize]) -> Option<L> {
+    let k = m.edges.len();
+    for &i in ids {
+        if i >= k {
+            return None;
+        }
+    }
+    let mut out = m.clone();
+    out.edges = vec![];
+    out.src = vec![];
+    out.tgt = vec![];
+    for e in 0..k {
+        if !ids.contains(&e) {
+            out.edges.push(m.edges[e]);
+            out.src.push(m.src[e].clone());
+            out.tgt.push(m.tgt[e].clone());
+        }
+    }
+    Some(out)
+}
+
+/// one step on the list model; returns what the call must return
+fn model_step(m: &mut L, op: &Op) -> Exp {
+    match op {
+        Op::NewNode(w) => {
+            m.nodes.push(*w);
+            Exp::Node(m.nodes.len() - 1)
+        }
+        Op::NewEdge(x, s, t) => {
+            m.edges.push(*x);
+            m.src.push(s.clone());
+            m.tgt.push(t.clone());
+            Exp::Edge(m.edges.len() - 1)
+        }
+        Op::NewOperation(x, a, b) => {
+            let mut s = vec![];
+            let mut t = vec![];
+            for &l in a {
+                s.push(m.nodes.len());
+                m.nodes.push(l);
+            }
+            for &l in b {
+                t.push(m.nodes.len());
+                m.nodes.push(l);
+            }
+            m.edges.push(*x);
+            m.src.push(s.clone());
+            m.tgt.push(t.clone());
+            Exp::Operation(m.edges.len() - 1, s, t)
+        }
+        Op::AddSource(e, w) => {
+            m.nodes.push(*w);
+            let id = m.nodes.len() - 1;
+            m.src[*e].push(id);
+            Exp::Node(id)
+        }
+        Op::AddTarget(e, w) => {
+            m.nodes.push(*w);
+            let id = m.nodes.len() - 1;
+            m.tgt[*e].push(id);
+            Exp::Node(id)
+        }
+        Op::Unify(v, w) => {
+            m.ql.push(*v);
+            m.qr.push(*w);
+            Exp::Unit
+        }
+        Op::DeleteNodes(ids, _) => match model_delete_nodes(m, ids) {
+            None => Exp::Reject,
+            Some((out, w)) => {
+                *m = out;
+                Exp::Witness(w)
+            }
+        },
+        Op::DeleteEdges(ids, _) => match model_delete_edges(m, ids) {
+            None => Exp::Reject,
+            Some(out) => {
+                *m = out;
+                Exp::Unit
+            }
+        },
+        Op::WithNodes(v) => {
+            if v.len() == m.nodes.len() {
+                m.nodes = v.clone();
+                Exp::Relabeled
+            } else {
+                Exp::RelabelNone
+            }
+        }
+        Op::MapNodes(d) => {
+            for x in m.nodes.iter_mut() {
+                *x = relabel_fn(*x, *d);
+            }
+            Exp::Relabeled
+        }
+        Op::WithEdges(v) => {
+            if v.len() == m.edges.len() {
+                m.edges = v.clone();
+                Exp::Relabeled
+            } else {
+                Exp::RelabelNone
+            }
+        }
+        Op::MapEdges(d) => {
+            for x in m.edges.iter_mut() {
+                *x = relabel_fn(*x, *d);
+            }
+            Exp::Relabeled
+        }
+        Op::PushInterface(s, t) => {
+            m.s.extend(s.iter().cloned());
+            m.t.extend(t.iter().cloned());
+            Exp::Unit
+        }
+    }
+}
+
+// ------------------------------------------------------------------------------------------------
+// the same step on the real library
+// ------------------------------------------------------------------------------------------------
+#[derive(Clone)]
+enum Lib {
+    Open(LO),
+    Hyper(LH),
+}
+impl Lib {
+    fn observe(&self) -> L {
+        match self {
+            Lib::Open(f) => obs_open(f),
+            Lib::Hyper(h) => obs_hyper(h),
+        }
+    }
+}
+
+#[derive(Clone, Debug)]
+enum Got {
+    Node(usize),
+    Edge(usize),
+    Operation(usize, Vec<usize>, Vec<usize>),
+    Unit,
+    /// witness (if the variant reports one) and, at open level, the state of a copy of the inner
+    /// hypergraph on which the witness-reporting variant was run
+    Deleted(Option<Vec<Option<usize>>>, Option<L>),
+    /// relabelling refused; the labels handed to the closure
+    RelabelNone(Vec<u16>),
+    Relabeled(Option<Vec<u16>>),
+}
+
+macro_rules! both {
+    ($lib:expr, $g:ident => $e:expr) => {
+        match $lib {
+            Lib::Open($g) => $e,
+            Lib::Hyper($g) => $e,
+        }
+    };
+}
+
+#[allow(deprecated)]
+fn lib_step(lib: &mut Lib, op: &Op) -> Result<Got, String> {
+    guard(move || match op {
+        Op::NewNode(w) => Got::Node(both!(lib, g => g.new_node(*w).0)),
+        Op::NewEdge(x, s, t) => match lib {
+            // both ways of passing the interface: the tuple conversion and the struct itself
+            Lib::Open(g) => Got::Edge(g.new_edge(*x, (nid(s), nid(t))).0),
+            Lib::Hyper(g) => Got::Edge(g.new_edge(*x, Hyperedge { sources: nid(s), targets: nid(t) }).0),
+        },
+        Op::NewOperation(x, a, b) => {
+            let (e, (s, t)) = both!(lib, g => g.new_operation(*x, a.clone(), b.clone()));
+            Got::Operation(e.0, un(&s), un(&t))
+        }
+        Op::AddSource(e, w) => Got::Node(both!(lib, g => g.add_edge_source(EdgeId(*e), *w).0)),
+        Op::AddTarget(e, w) => Got::Node(both!(lib, g => g.add_edge_target(EdgeId(*e), *w).0)),
+        Op::Unify(v, w) => {
+            both!(lib, g => g.unify(NodeId(*v), NodeId(*w)));
+            Got::Unit
+        }
+        Op::DeleteNodes(ids, witness) => match lib {
+            Lib::Open(f) => {
+                // the open level reports nothing; run the reporting variant on a copy of the inner hypergraph
+                let mut copy = f.hypergraph.clone();
+                f.delete_nodes(&nid(ids));
+                let w = copy.delete_nodes_witness(&nid(ids));
+                Got::Deleted(Some(w), Some(obs_hyper(&copy)))
+            }
+            Lib::Hyper(h) => {
+                if *witness {
+                    Got::Deleted(Some(h.delete_nodes_witness(&nid(ids))), None)
+                } else {
+                    h.delete_nodes(&nid(ids));
+                    Got::Deleted(None, None)
+                }
+            }
+        },
+        Op::DeleteEdges(ids, deprecated) => {
+            match lib {
+                Lib::Open(f) => f.delete_edges(&eid(ids)),
+                Lib::Hyper(h) => {
+                    if *deprecated {
+                        h.delete_edge(&eid(ids))
+                    } else {
+                        h.delete_edges(&eid(ids))
+                    }
+                }
+            }
+            Got::Unit
+        }
+        Op::WithNodes(v) => {
+            let mut arg = vec![];
+            both!(lib, g => match g.clone().with_nodes(|old| { arg = old; v.clone() }) {
+                Some(r) => { *g = r; Got::Relabeled(Some(arg)) }
+                None => Got::RelabelNone(arg),
+            })
+        }
+        Op::MapNodes(d) => {
+            both!(lib, g => *g = g.clone().map_nodes(|x| relabel_fn(x, *d)));
+            Got::Relabeled(None)
+        }
+        Op::WithEdges(v) => {
+            let mut arg = vec![];
+            both!(lib, g => match g.clone().with_edges(|old| { arg = old; v.clone() }) {
+                Some(r) => { *g = r; Got::Relabeled(Some(arg)) }
+                None => Got::RelabelNone(arg),
+            })
+        }
+        Op::MapEdges(d) => {
+            both!(lib, g => *g = g.clone().map_edges(|x| relabel_fn(x, *d)));
+            Got::Relabeled(None)
+        }
+        Op::PushInterface(s, t) => {
+            if let Lib::Open(f) = lib {
+                f.sources.extend(nid(s));
+                f.targets.extend(nid(t));
+            }
+            Got::Unit
+        }
+    })
+}
+
+// ------------------------------------------------------------------------------------------------
+// comparing a step's outcome with the model, clause by clause
+// ------------------------------------------------------------------------------------------------
+fn sorted<T: Ord + Clone>(v: &[T]) -> Vec<T> {
+    let mut w = v.to_vec();
+    w.sort();
+    w
+}
+
+/// the first clause violated by `obs` (library state after the step) against `exp` (model state)
+fn state_clause(op: &Op, before: &L, exp: &L, obs: &L) -> Option<(String, String)> {
+    if exp == obs {
+        return None;
+    }
+    let p = op.name();
+    let field = if exp.nodes != obs.nodes {
+        "nodes"
+    } else if exp.edges != obs.edges {
+        "edges"
+    } else if exp.src != obs.src {
+        "adjacency.sources"
+    } else if exp.tgt != obs.tgt {
+        "adjacency.targets"
+    } else if exp.s != obs.s {
+        "sources"
+    } else if exp.t != obs.t {
+        "targets"
+    } else {
+        "quotient"
+    };
+    let clause = match op {
+        Op::DeleteNodes(..) => match field {
+            "nodes" => {
+                if sorted(&exp.nodes) == sorted(&obs.nodes) {
+                    "monotone-renumbering"
+                } else {
+                    "removes-exactly-named"
+                }
+            }
+            "edges" => "touches-nothing-else",
+            "adjacency.sources" | "adjacency.targets" => {
+                if obs.src.len() != exp.src.len() || obs.tgt.len() != exp.tgt.len() {
+                    "touches-nothing-else"
+                } else {
+                    "drops-edge-references"
+                }
+            }
+            "sources" | "targets" => "drops-interface-entries",
+            _ => "drops-pending-unifications",
+        },
+        Op::DeleteEdges(..) => match field {
+            "edges" => {
+                if sorted(&exp.edges) == sorted(&obs.edges) {
+                    "monotone-renumbering"
+                } else {
+                    "removes-exactly-named"
+                }
+            }
+            "adjacency.sources" | "adjacency.targets" => "removes-exactly-named",
+            _ => "touches-nothing-else",
+        },
+        _ => {
+            // a non-deleting step: every item that existed before keeps its identifier
+            let keeps = obs.nodes.len() >= before.nodes.len()
+                && obs.edges.len() >= before.edges.len()
+                && (matches!(op, Op::WithNodes(..) | Op::MapNodes(..)) || obs.nodes[..before.nodes.len()] == before.nodes[..])
+                && (matches!(op, Op::WithEdges(..) | Op::MapEdges(..)) || obs.edges[..before.edges.len()] == before.edges[..]);
+            if !keeps {
+                "ids-stay-valid"
+            } else {
+                "equals-list-model"
+            }
+        }
+    };
+    Some((format!("C11.{}.{}", p, clause), field.to_string()))
+}
+
+/// Replay `ops` from `init` on the library (at open or hypergraph level) and on the list model in
+/// lockstep.  Reports the first violated clause and stops.  Returns the final model state if the
+/// whole script ran without a violation and without a (correct) rejection.
+fn run_script(ctx: &mut Ctx, check: &str, input: &Value, open: bool, init: &L, ops: &[Op]) -> Option<L> {
+    let mut m = if open { init.clone() } else { init.without_interface() };
+    let mut lib = if open {
+        if m == L::empty() {
+            Lib::Open(LO::empty())
+        } else {
+            Lib::Open(m.to_open())
+        }
+    } else if m == L::empty() {
+        Lib::Hyper(LH::empty())
+    } else {
+        Lib::Hyper(m.to_hyper())
+    };
+    let lvl = if open { "open" } else { "hypergraph" };
+    if lib.observe() != m {
+        ctx.fail(check, "C11.empty.is-empty", input, lib.observe().json(), m.json());
+        return None;
+    }
+    for (i, op) in ops.iter().enumerate() {
+        if !op_in_domain(&m, op, open) {
+            return None;
+        }
+        let before = m.clone();
+        let exp = model_step(&mut m, op);
+        let got = lib_step(&mut lib, op);
+        let at = |v: Value| json!({"level": lvl, "step": i, "op": op.json(), "value": v});
+        if exp == Exp::Reject {
+            // the call must not return normally
+            if let Ok(_) = got {
+                ctx.fail(check, &format!("C11.{}.rejects-out-of-range", op.name()), input, at(json!({"returned-normally": lib.observe().json()})), json!("rejected (panic)"));
+            }
+            return None;
+        }
+        let got = match got {
+            Err(p) => {
+                ctx.fail(check, &format!("C11.{}.no-panic", op.name()), input, at(json!(format!("panic: {}", p))), json!({"returns": format!("{:?}", exp), "state": m.json()}));
+                return None;
+            }
+            Ok(g) => g,
+        };
+        // returned identifiers / results
+        let mut bad: Option<(&str, Value, Value)> = None;
+        match (&exp, &got) {
+            (Exp::Node(e), Got::Node(g)) | (Exp::Edge(e), Got::Edge(g)) => {
+                if e != g {
+                    bad = Some(("fresh-id", json!(g), json!(e)));
+                }
+            }
+            (Exp::Operation(e, s, t), Got::Operation(ge, gs, gt)) => {
+                let n0 = before.nodes.len();
+                let n1 = m.nodes.len();
+                let all: Vec<usize> = gs.iter().chain(gt.iter()).cloned().collect();
+                let fresh = gs.len() == s.len()
+                    && gt.len() == t.len()
+                    && all.iter().all(|&v| v >= n0 && v < n1)
+                    && all.iter().collect::<BTreeSet<_>>().len() == all.len()
+                    && ge == e;
+                if !fresh {
+                    bad = Some(("fresh-ids", json!([ge, gs, gt]), json!([e, s, t])));
+                } else if gs != s || gt != t {
+                    bad = Some(("list-model-order", json!([ge, gs, gt]), json!([e, s, t])));
+                }
+            }
+            (Exp::Unit, Got::Unit) => {}
+            (Exp::Witness(w), Got::Deleted(gw, side)) => {
+                if let Some(gw) = gw {
+                    if gw != w {
+                        bad = Some(("reports-renumbering", json!(gw), json!(w)));
+                    }
+                }
+                if bad.is_none() {
+                    if let Some(side) = side {
+                        let want = m.without_interface();
+                        if let Some((clause, field)) = state_clause(op, &before, &want, side) {
+                            ctx.fail(check, &clause, input, at(json!({"variant": "Hypergraph::delete_nodes_witness on a copy", "field": field, "state": side.json()})), want.json());
+                            return None;
+                        }
+                    }
+                }
+            }
+            (Exp::RelabelNone, Got::RelabelNone(arg)) | (Exp::Relabeled, Got::Relabeled(Some(arg))) => {
+                let want = if matches!(op, Op::WithNodes(..)) { &before.nodes } else { &before.edges };
+                if arg != want {
+                    bad = Some(("closure-receives-labels", json!(arg), json!(want)));
+                }
+            }
+            (Exp::Relabeled, Got::Relabeled(None)) => {}
+            (Exp::RelabelNone, Got::Relabeled(_)) => bad = Some(("length-mismatch-is-none", json!("Some"), json!("None"))),
+            (Exp::Relabeled, Got::RelabelNone(_)) => bad = Some(("length-mismatch-is-none", json!("None"), json!("Some"))),
+            _ => bad = Some(("result-kind", json!(format!("{:?}", got)), json!(format!("{:?}", exp)))),
+        }
+        if let Some((clause, o, e)) = bad {
+            ctx.fail(check, &format!("C11.{}.{}", op.name(), clause), input, at(o), e);
+            return None;
+        }
+        // the whole state
+        let obs = lib.observe();
+        if let Some((clause, field)) = state_clause(op, &before, &m, &obs) {
+            ctx.fail(check, &clause, input, at(json!({"field": field, "state": obs.json()})), m.json());
+            return None;
+        }
+    }
+    Some(m)
+}
+
+/// pre-pass on the model only: is the script inside the property's domain, and is it non-trivial
+/// (some deleting / relabelling / unifying / extending step hits a non-empty diagram)?
+fn script_domain(open: bool, init: &L, ops: &[Op]) -> Option<bool> {
+    if !init.valid() {
+        return None;
+    }
+    let mut m = if open { init.clone() } else { init.without_interface() };
+    let mut nontrivial = false;
+    for op in ops {
+        if !op_in_domain(&m, op, open) {
+            return None;
+        }
+        if !m.is_empty() && !matches!(op, Op::NewNode(..) | Op::NewEdge(..) | Op::NewOperation(..)) {
+            nontrivial = true;
+        }
+        if model_step(&mut m, op) == Exp::Reject {
+            break;
+        }
+    }
+    Some(nontrivial)
+}
+
+fn decode_ops(v: &Value) -> Option<Vec<Op>> {
+    v.as_array()?.iter().map(Op::from_json).collect()
+}
+
+fn script_input(open: bool, init: &L, ops: &[Op]) -> Value {
+    json!({"level": if open { "open" } else { "hypergraph" }, "init": init.json(), "ops": ops.iter().map(|o| o.json()).collect::<Vec<_>>()})
+}
+
+/// input: {"level": "open"|"hypergraph", "init": diagram (or null = empty), "ops": [step, ...]}
+fn chk_script(ctx: &mut Ctx, input: &Value) {
+    let open = match input["level"].as_str() {
+        Some("open") => true,
+        Some("hypergraph") => false,
+        _ => return,
+    };
+    let (init, ops) = match (L::from_json(&input["init"]), decode_ops(&input["ops"])) {
+        (Some(i), Some(o)) => (i, o),
+        _ => return,
+    };
+    let nontrivial = match script_domain(open, &init, &ops) {
+        Some(b) => b,
+        None => return,
+    };
+    ctx.case("script", input, nontrivial);
+    if let Some(fin) = run_script(ctx, "script", input, open, &init, &ops) {
+        // the diagram reached by this history survives a JSON round trip and has the documented shape
+        serde_clauses(ctx, "script", input, &fin, open);
+    }
+}
+
+/// run one step from `init` at both levels under the name of a single-step check
+fn one_step(ctx: &mut Ctx, check: &str, input: &Value, init: &L, ops_open: &[Op], ops_hyper: &[Op]) {
+    if script_domain(true, init, ops_open).is_none() || script_domain(false, init, ops_hyper).is_none() {
+        return;
+    }
+    ctx.case(check, input, !init.is_empty());
+    run_script(ctx, check, input, true, init, ops_open);
+    run_script(ctx, check, input, false, init, ops_hyper);
+}
+
+/// input: {"d": diagram, "ids": [node ids]}.  Open level (delete_nodes + witness on a copy of the
+/// inner hypergraph) and hypergraph level (delete_nodes_witness, then delete_nodes).
+fn chk_delete_nodes(ctx: &mut Ctx, input: &Value) {
+    let (d, ids) = match (L::from_json(&input["d"]), us(&input["ids"])) {
+        (Some(d), Some(i)) => (d, i),
+        _ => return,
+    };
+    if !d.valid() {
+        return;
+    }
+    ctx.case("delete_nodes", input, !d.is_empty() && !ids.is_empty());
+    run_script(ctx, "delete_nodes", input, true, &d, &[Op::DeleteNodes(ids.clone(), false)]);
+    run_script(ctx, "delete_nodes", input, false, &d, &[Op::DeleteNodes(ids.clone(), true)]);
+    run_script(ctx, "delete_nodes", input, false, &d, &[Op::DeleteNodes(ids.clone(), false)]);
+}
+
+/// input: {"d": diagram, "ids": [edge ids]}
+fn chk_delete_edges(ctx: &mut Ctx, input: &Value) {
+    let (d, ids) = match (L::from_json(&input["d"]), us(&input["ids"])) {
+        (Some(d), Some(i)) => (d, i),
+        _ => return,
+    };
+    if !d.valid() {
+        return;
+    }
+    ctx.case("delete_edges", input, !d.edges.is_empty() && !ids.is_empty());
+    run_script(ctx, "delete_edges", input, true, &d, &[Op::DeleteEdges(ids.clone(), false)]);
+    run_script(ctx, "delete_edges", input, false, &d, &[Op::DeleteEdges(ids.clone(), false)]);
+    run_script(ctx, "delete_edges", input, false, &d, &[Op::DeleteEdges(ids.clone(), true)]);
+}
+
+/// input: {"d": diagram, "op": one of with_nodes / map_nodes / with_edges / map_edges}
+fn chk_relabel(ctx: &mut Ctx, input: &Value) {
+    let (d, op) = match (L::from_json(&input["d"]), Op::from_json(&input["op"])) {
+        (Some(d), Some(o)) => (d, o),
+        _ => return,
+    };
+    if !matches!(op, Op::WithNodes(..) | Op::MapNodes(..) | Op::WithEdges(..) | Op::MapEdges(..)) {
+        return;
+    }
+    one_step(ctx, "relabel", input, &d, &[op.clone()], &[op]);
+}
+
+// ------------------------------------------------------------------------------------------------
+// serde
+// ------------------------------------------------------------------------------------------------
+/// the JSON the README documents for a lax hypergraph
+fn documented_hyper(m: &L) -> Value {
+    let adj: Vec<Value> = (0..m.edges.len()).map(|e| json!({"sources": m.src[e], "targets": m.tgt[e]})).collect();
+    json!({"nodes": m.nodes, "edges": m.edges, "adjacency": adj, "quotient": [m.ql, m.qr]})
+}
+/// ... and for a lax open hypergraph
+fn documented_open(m: &L) -> Value {
+    json!({"sources": m.s, "targets": m.t, "hypergraph": documented_hyper(m)})
+}
+
+/// every object key with its path
+fn key_paths(v: &Value, prefix: &str, out: &mut BTreeSet<String>) {
+    match v {
+        Value::Object(o) => {
+            for (k, x) in o {
+                let p = format!("{}/{}", prefix, k);
+                out.insert(p.clone());
+                key_paths(x, &p, out);
+            }
+        }
+        Value::Array(a) => {
+            for x in a {
+                key_paths(x, &format!("{}[]", prefix), out);
+            }
+        }
+        _ => {}
+    }
+}
+
+/// encode / documented shape / decode documented / round trips for one value of type $ty
+macro_rules! serde_one {
+    ($ctx:expr, $check:expr, $input:expr, $what:expr, $value:expr, $ty:ty, $documented:expr) => {{
+        let ctx: &mut Ctx = $ctx;
+        let check: &str = $check;
+        let input: &Value = $input;
+        let what: &str = $what;
+        let value: &$ty = $value;
+        let documented: Option<&Value> = $documented;
+        let mut ok = true;
+        // encode
+        let enc = guard(|| (serde_json::to_value(value), serde_json::to_string(value), serde_json::to_string_pretty(value)));
+        match enc {
+            Ok((Ok(v), Ok(s), Ok(sp))) => {
+                // documented field names / shape
+                if let Some(doc) = documented {
+                    if &v != doc {
+                        let (mut a, mut b) = (BTreeSet::new(), BTreeSet::new());
+                        key_paths(&v, "", &mut a);
+                        key_paths(doc, "", &mut b);
+                        let clause = if a != b { "C11.serde.field-names" } else { "C11.serde.documented-encoding" };
+                        ctx.fail(check, clause, input, json!({"what": what, "json": v}), doc.clone());
+                        ok = false;
+                    } else {
+                        // the documented text decodes to the same diagram
+                        match guard(|| serde_json::from_value::<$ty>(doc.clone())) {
+                            Ok(Ok(back)) if &back == value => {}
+                            other => {
+                                ctx.fail(check, "C11.serde.decodes-documented", input, json!({"what": what, "decoded": format!("{:?}", other)}), json!(format!("{:?}", value)));
+                                ok = false;
+                            }
+                        }
+                    }
+                }
+                if ok {
+                    // round trips: through a Value, through compact text, through pretty text
+                    let back = guard(|| (serde_json::from_value::<$ty>(v.clone()), serde_json::from_str::<$ty>(&s), serde_json::from_str::<$ty>(&sp)));
+                    match back {
+                        Ok((Ok(a), Ok(b), Ok(c))) if &a == value && &b == value && &c == value => {}
+                        other => {
+                            ctx.fail(check, "C11.serde.round-trip", input, json!({"what": what, "text": s, "decoded": format!("{:?}", other)}), json!(format!("{:?}", value)));
+                            ok = false;
+                        }
+                    }
+                }
+            }
+            other => {
+                ctx.fail(check, "C11.serde.round-trip", input, json!({"what": what, "encode": format!("{:?}", other.map(|(a, _, _)| a.map(|_| ())))}), json!("encodes"));
+                ok = false;
+            }
+        }
+        ok
+    }};
+}
+
+/// all serde clauses for the diagram `m` (open level also checks the inner pieces)
+fn serde_clauses(ctx: &mut Ctx, check: &str, input: &Value, m: &L, open: bool) {
+    if open {
+        let f = m.to_open();
+        if !serde_one!(ctx, check, input, "lax::OpenHypergraph", &f, LO, Some(&documented_open(m))) {
+            return;
+        }
+    }
+    let h = m.to_hyper();
+    if !serde_one!(ctx, check, input, "lax::Hypergraph", &h, LH, Some(&documented_hyper(m))) {
+        return;
+    }
+    for e in 0..m.edges.len().min(3) {
+        let he = Hyperedge { sources: nid(&m.src[e]), targets: nid(&m.tgt[e]) };
+        if !serde_one!(ctx, check, input, "lax::Hyperedge", &he, Hyperedge, Some(&json!({"sources": m.src[e], "targets": m.tgt[e]}))) {
+            return;
+        }
+    }
+    let n = m.nodes.len();
+    // identifiers are bare numbers in the documented format
+    if !serde_one!(ctx, check, input, "lax::NodeId", &NodeId(n), NodeId, Some(&json!(n))) {
+        return;
+    }
+    serde_one!(ctx, check, input, "lax::EdgeId", &EdgeId(m.edges.len()), EdgeId, None);
+}
+
+/// input: {"d": diagram}
+fn chk_serde(ctx: &mut Ctx, input: &Value) {
+    let d = match L::from_json(&input["d"]) {
+        Some(d) if d.valid() => d,
+        _ => return,
+    };
+    ctx.case("serde", input, !d.is_empty());
+    serde_clauses(ctx, "serde", input, &d, true);
+}
+
+/// the JSON printed in README.md (labels of arbitrary serialisable type: here serde_json::Value)
+const README_JSON: &str = r#"{
+    "sources": [3,0],
+    "targets": [4],
+    "hypergraph": {
+        "nodes":[
+            {"Interval":{"lower":0,"upper":1}},
+            "Int","Int","Int","Int"
+        ],
+        "edges": ["Cast","Neg","Add"],
+        "adjacency": [
+            {"sources":[0],"targets":[1]},
+            {"sources":[1],"targets":[2]},
+            {"sources":[3,2],"targets":[4]}
+        ],
+        "quotient":[[],[]]
+    }
+}"#;
+
+/// input: {"text": a JSON document in the README's format, "expect": the plain reading of it:
+/// {"sources","targets","nodes","edges","adjacency":[[src,tgt]..],"quotient":[l,r]}}
+fn chk_serde_readme(ctx: &mut Ctx, input: &Value) {
+    let text = match input["text"].as_str() {
+        Some(t) => t.to_string(),
+        None => return,
+    };
+    let doc: Value = match serde_json::from_str(&text) {
+        Ok(v) => v,
+        Err(_) => return,
+    };
+    let ex = &input["expect"];
+    let (es, et, en, ee, ea, eq) = match (us(&ex["sources"]), us(&ex["targets"]), ex["nodes"].as_array(), ex["edges"].as_array(), ex["adjacency"].as_array(), ex["quotient"].as_array()) {
+        (Some(a), Some(b), Some(c), Some(d), Some(e), Some(f)) if f.len() == 2 => (a, b, c.clone(), d.clone(), e.clone(), f.clone()),
+        _ => return,
+    };
+    ctx.case("serde_readme", input, true);
+    type LV = lax::OpenHypergraph<Value, Value>;
+    let f: LV = match guard(|| serde_json::from_str::<LV>(&text)) {
+        Ok(Ok(f)) => f,
+        other => {
+            ctx.fail("serde_readme", "C11.serde.decodes-documented", input, json!(format!("{:?}", other.map(|r| r.map(|_| ())))), json!("the README document decodes"));
+            return;
+        }
+    };
+    let adj: Vec<Value> = f.hypergraph.adjacency.iter().map(|e| json!([un(&e.sources), un(&e.targets)])).collect();
+    let ok = un(&f.sources) == es
+        && un(&f.targets) == et
+        && f.hypergraph.nodes == en
+        && f.hypergraph.edges == ee
+        && adj == ea
+        && json!(un(&f.hypergraph.quotient.0)) == eq[0]
+        && json!(un(&f.hypergraph.quotient.1)) == eq[1];
+    if !ok {
+        ctx.fail("serde_readme", "C11.serde.decodes-documented", input, json!(format!("{:?}", f)), ex.clone());
+        return;
+    }
+    match guard(|| serde_json::to_value(&f)) {
+        Ok(Ok(v)) if v == doc => {}
+        other => {
+            let (mut a, mut b) = (BTreeSet::new(), BTreeSet::new());
+            if let Ok(Ok(v)) = &other {
+                key_paths(v, "", &mut a);
+            }
+            key_paths(&doc, "", &mut b);
+            let clause = if a != b { "C11.serde.field-names" } else { "C11.serde.documented-encoding" };
+            ctx.fail("serde_readme", clause, input, json!(format!("{:?}", other)), doc.clone());
+            return;
+        }
+    }
+    match guard(|| serde_json::to_string(&f).ok().and_then(|s| serde_json::from_str::<LV>(&s).ok())) {
+        Ok(Some(g)) if g == f => {}
+        other => ctx.fail("serde_readme", "C11.serde.round-trip", input, json!(format!("{:?}", other)), json!(format!("{:?}", f))),
+    }
+}
+
+fn readme_expect() -> Value {
+    json!({"sources": [3, 0], "targets": [4],
+           "nodes": [{"Interval": {"lower": 0, "upper": 1}}, "Int", "Int", "Int", "Int"],
+           "edges": ["Cast", "Neg", "Add"],
+           "adjacency": [[[0], [1]], [[1], [2]], [[3, 2], [4]]],
+           "quotient": [[], []]})
+}
+
+/// the ```json block of a README text, if any
+fn readme_block(text: &str) -> Option<String> {
+    let a = text.find("```json")? + "```json".len();
+    let b = text[a..].find("```")? + a;
+    Some(text[a..b].to_string())
+}
+
+// ------------------------------------------------------------------------------------------------
+// generators
+// ------------------------------------------------------------------------------------------------
+struct Gen {
+    next_label: u16,
+}
+impl Gen {
+    fn new() -> Gen {
+        Gen { next_label: 100 }
+    }
+    /// mostly a label never used before (so that items are told apart), sometimes a repeated one
+    fn label(&mut self, r: &mut Rng) -> u16 {
+        if r.chance(1, 6) {
+            r.below(3) as u16
+        } else {
+            self.next_label = self.next_label.wrapping_add(1);
+            self.next_label
+        }
+    }
+}
+
+/// identifier lists for the deletions: every style named by the property
+fn gen_ids(r: &mut Rng, n: usize, oob: bool) -> Vec<usize> {
+    if oob {
+        // a (possibly empty, possibly duplicated) valid list with one out-of-range identifier somewhere
+        let l0 = r.below(4);
+        let mut v = if n == 0 { vec![] } else { r.vec_below(l0, n) };
+        let bad = match r.below(4) {
+            0 => n,
+            1 => n + 1,
+            2 => n + r.range(2, 70),
+            _ => usize::MAX,
+        };
+        let p = r.below(v.len() + 1);
+        v.insert(p, bad);
+        return v;
+    }
+    if n == 0 {
+        return vec![];
+    }
+    match r.below(10) {
+        0 => vec![],
+        1 => vec![r.below(n)],
+        2 => {
+            // random subset, sorted
+            (0..n).filter(|_| r.chance(1, 2)).collect()
+        }
+        3 => {
+            // unsorted, with duplicates, longer than the number of items
+            let len = r.range(1, 2 * n + 2);
+            r.vec_below(len, n)
+        }
+        4 => (0..n).rev().collect(),
+        5 => {
+            let k = r.range(1, n);
+            (n - k..n).collect() // a suffix
+        }
+        6 => {
+            let k = r.range(1, n);
+            (0..k).collect() // a prefix
+        }
+        7 => vec![r.below(n); r.range(2, n + 3)], // one identifier many times
+        8 => {
+            // random subset, shuffled by reversing halves
+            let mut v: Vec<usize> = (0..n).filter(|_| r.chance(2, 3)).collect();
+            v.reverse();
+            let h = v.len() / 2;
+            v[..h].reverse();
+            v
+        }
+        _ => {
+            let len = r.range(1, 3);
+            r.vec_below(len, n)
+        }
+    }
+}
+
+fn gen_list(r: &mut Rng, max_len: usize, n: usize) -> Vec<usize> {
+    if n == 0 {
+        return vec![];
+    }
+    let len = if r.chance(1, 12) { r.range(n + 1, n + 4) } else { r.range(0, max_len) };
+    r.vec_below(len, n)
+}
+
+/// a random diagram in list form (valid identifiers; repeated, dangling, zero-arity, self-unification all possible)
+fn gen_diagram(r: &mut Rng, g: &mut Gen, max_n: usize, max_k: usize) -> L {
+    let n = r.range(0, max_n);
+    let k = r.range(0, max_k);
+    let mut m = L::empty();
+    for _ in 0..n {
+        m.nodes.push(g.label(r));
+    }
+    for _ in 0..k {
+        m.edges.push(g.label(r));
+        m.src.push(gen_list(r, 3, n));
+        m.tgt.push(gen_list(r, 3, n));
+    }
+    if n > 0 {
+        for _ in 0..r.range(0, 4) {
+            m.ql.push(r.below(n));
+            m.qr.push(r.below(n));
+        }
+    }
+    m.s = gen_list(r, 3, n);
+    m.t = gen_list(r, 3, n);
+    m
+}
+
+/// a random editing history.  `del_heavy`: mostly deletions.
+fn gen_script(r: &mut Rng, g: &mut Gen, open: bool, init: &L, len: usize, del_heavy: bool) -> Vec<Op> {
+    let mut m = if open { init.clone() } else { init.without_interface() };
+    let mut ops = vec![];
+    for step in 0..len {
+        let n = m.nodes.len();
+        let k = m.edges.len();
+        let last = step + 1 == len;
+        let roll = r.below(if del_heavy { 40 } else { 30 });
+        let op = match roll {
+            0..=2 => Op::NewNode(g.label(r)),
+            3..=5 => Op::NewEdge(g.label(r), gen_list(r, 3, n), gen_list(r, 3, n)),
+            6..=8 => {
+                let a = r.range(0, 3);
+                let b = r.range(0, 3);
+                Op::NewOperation(g.label(r), (0..a).map(|_| g.label(r)).collect(), (0..b).map(|_| g.label(r)).collect())
+            }
+            9..=10 if k > 0 => Op::AddSource(r.below(k), g.label(r)),
+            11..=12 if k > 0 => Op::AddTarget(r.below(k), g.label(r)),
+            13..=15 if n > 0 => {
+                let v = r.below(n);
+                Op::Unify(v, if r.chance(1, 6) { v } else { r.below(n) })
+            }
+            16..=17 if open && n > 0 => Op::PushInterface(gen_list(r, 2, n), gen_list(r, 2, n)),
+            18 => {
+                let l = if r.chance(2, 3) { n } else { r.range(0, n + 2) };
+                Op::WithNodes((0..l).map(|_| g.label(r)).collect())
+            }
+            19 => Op::MapNodes(r.below(5) as u16),
+            20 => {
+                let l = if r.chance(2, 3) { k } else { r.range(0, k + 2) };
+                Op::WithEdges((0..l).map(|_| g.label(r)).collect())
+            }
+            21 => Op::MapEdges(r.below(5) as u16),
+            22..=24 => {
+                let oob = last && r.chance(1, 4);
+                Op::DeleteEdges(gen_ids(r, k, oob), !open && r.chance(1, 3))
+            }
+            _ => {
+                let oob = last && r.chance(1, 4);
+                Op::DeleteNodes(gen_ids(r, n, oob), r.chance(1, 2))
+            }
+        };
+        if !op_in_domain(&m, &op, open) {
+            continue;
+        }
+        let e = model_step(&mut m, &op);
+        ops.push(op);
+        if e == Exp::Reject {
+            break;
+        }
+    }
+    ops
+}
+
+/// lists over 0..n of length <= max_len
+fn all_lists(n: usize, max_len: usize) -> Vec<Vec<usize>> {
+    let mut out = vec![vec![]];
+    let mut layer: Vec<Vec<usize>> = vec![vec![]];
+    for _ in 0..max_len {
+        let mut next = vec![];
+        for l in &layer {
+            for v in 0..n {
+                let mut x = l.clone();
+                x.push(v);
+                next.push(x);
+            }
+        }
+        out.extend(next.iter().cloned());
+        layer = next;
+    }
+    out
+}
+
+/// the finite alphabet of steps offered in state `m` by the exhaustive enumeration
+fn alphabet(m: &L, open: bool, fresh: u16) -> Vec<Op> {
+    let n = m.nodes.len();
+    let k = m.edges.len();
+    let mut a = vec![];
+    if n < 4 {
+        a.push(Op::NewNode(fresh));
+    }
+    if k < 3 {
+        for s in all_lists(n, 1) {
+            for t in all_lists(n, 1) {
+                a.push(Op::NewEdge(fresh, s.clone(), t.clone()));
+            }
+        }
+        if n < 3 {
+            for (x, y) in [(0usize, 0usize), (1, 0), (0, 1), (1, 1)] {
+                a.push(Op::NewOperation(fresh, (0..x).map(|i| fresh + 1 + i as u16).collect(), (0..y).map(|i| fresh + 3 + i as u16).collect()));
+            }
+        }
+    }
+    if n < 4 {
+        for e in 0..k {
+            a.push(Op::AddSource(e, fresh));
+            a.push(Op::AddTarget(e, fresh));
+        }
+    }
+    if m.ql.len() < 2 {
+        for v in 0..n {
+            for w in 0..n {
+                a.push(Op::Unify(v, w));
+            }
+        }
+    }
+    if open && m.s.len() + m.t.len() < 3 {
+        for v in 0..n {
+            a.push(Op::PushInterface(vec![v], vec![]));
+            a.push(Op::PushInterface(vec![], vec![v]));
+        }
+    }
+    for ids in all_lists(n + 1, 2) {
+        a.push(Op::DeleteNodes(ids, true));
+    }
+    for ids in all_lists(k + 1, 2) {
+        a.push(Op::DeleteEdges(ids, false));
+    }
+    a.push(Op::MapNodes(1));
+    a
+}
+
+/// all histories of exactly `depth` steps (or ending earlier in a rejection) over `alphabet`
+fn enumerate_scripts(ctx: &mut Ctx, open: bool, init: &L, depth: usize) {
+    fn rec(ctx: &mut Ctx, open: bool, init: &L, m: &L, prefix: &mut Vec<Op>, depth: usize) {
+        if prefix.len() == depth {
+            chk_script(ctx, &script_input(open, init, prefix));
+            return;
+        }
+        let fresh = 200 + 10 * prefix.len() as u16;
+        for op in alphabet(m, open, fresh) {
+            let mut m2 = m.clone();
+            let e = model_step(&mut m2, &op);
+            prefix.push(op);
+            if e == Exp::Reject {
+                chk_script(ctx, &script_input(open, init, prefix));
+            } else {
+                rec(ctx, open, init, &m2, prefix, depth);
+            }
+            prefix.pop();
+        }
+    }
+    let m = if open { init.clone() } else { init.without_interface() };
+    rec(ctx, open, init, &m, &mut vec![], depth);
+}
+
+/// a few fixed diagrams used as starting points and as serde inputs
+fn corner_diagrams() -> Vec<L> {
+    let d = |nodes: &[u16], edges: &[u16], src: &[&[usize]], tgt: &[&[usize]], q: &[(usize, usize)], s: &[usize], t: &[usize]| L {
+        nodes: nodes.to_vec(),
+        edges: edges.to_vec(),
+        src: src.iter().map(|l| l.to_vec()).collect(),
+        tgt: tgt.iter().map(|l| l.to_vec()).collect(),
+        ql: q.iter().map(|p| p.0).collect(),
+        qr: q.iter().map(|p| p.1).collect(),
+        s: s.to_vec(),
+        t: t.to_vec(),
+    };
+    let mut v = vec![
+        L::empty(),
+        d(&[10], &[], &[], &[], &[], &[], &[]),                                       // an isolated node
+        d(&[10], &[], &[], &[], &[(0, 0)], &[0, 0], &[0]),                           // self-unification, repeated interface
+        d(&[], &[50], &[&[]], &[&[]], &[], &[], &[]),                                // zero-arity edge, no nodes
+        d(&[], &[50, 51, 52], &[&[], &[], &[]], &[&[], &[], &[]], &[], &[], &[]),    // edges only
+        d(&[10], &[50], &[&[0, 0, 0, 0, 0]], &[&[0, 0, 0]], &[], &[0], &[0]),        // multiplicity > nodes
+        d(&[10, 11], &[50, 51], &[&[0], &[1]], &[&[1], &[0]], &[], &[0], &[1]),      // 2-cycle
+        d(&[10, 11, 12], &[50], &[&[0, 2]], &[&[1]], &[(0, 2), (2, 1)], &[0, 2, 0], &[1, 1]),
+        d(&[10, 11, 12, 13], &[50, 51, 52], &[&[0, 1], &[], &[3, 3, 2]], &[&[2], &[1, 0], &[]], &[(3, 0), (1, 1), (0, 3), (2, 3)], &[3, 0, 3], &[2, 1, 0, 0]),
+        d(&[10, 11, 12, 13, 14], &[50, 50, 50], &[&[4, 3], &[2, 1], &[0]], &[&[0], &[4], &[4, 4]], &[(4, 0), (0, 4)], &[4], &[0, 4]),
+        d(&[7, 7, 7], &[9, 9], &[&[0, 1, 2], &[2, 1, 0]], &[&[2], &[0]], &[(0, 1), (1, 2), (2, 0)], &[0, 1, 2], &[2, 1, 0]), // repeated labels
+    ];
+    // 64 nodes merged in binomial-tree order, all on the interface, one edge touching every node
+    for &n in &[64usize, 70, 130] {
+        let mut m = L::empty();
+        m.nodes = (0..n).map(|i| 1000 + i as u16).collect();
+        let mut step = 1;
+        while step < n {
+            let mut i = 0;
+            while i + step < n {
+                m.ql.push(i);
+                m.qr.push(i + step);
+                i += 2 * step;
+            }
+            step *= 2;
+        }
+        m.edges = vec![60, 61];
+        m.src = vec![(0..n).collect(), (0..n).rev().collect()];
+        m.tgt = vec![(0..n).step_by(3).collect(), vec![n - 1, 0, n - 1]];
+        m.s = (0..n).rev().collect();
+        m.t = (0..n).step_by(2).collect();
+        v.push(m);
+    }
+    // many edges
+    {
+        let k = 130usize;
+        let mut m = L::empty();
+        m.nodes = vec![1, 2, 3];
+        m.edges = (0..k).map(|i| 2000 + i as u16).collect();
+        m.src = (0..k).map(|i| vec![i % 3]).collect();
+        m.tgt = (0..k).map(|i| vec![(i + 1) % 3, i % 3]).collect();
+        m.s = vec![0];
+        m.t = vec![2];
+        v.push(m);
+    }
+    v
+}
+
+/// fixed histories (from the empty diagram unless an init is given)
+fn corner_scripts() -> Vec<(L, Vec<Op>)> {
+    use Op::*;
+    let e = L::empty();
+    let mut v: Vec<(L, Vec<Op>)> = vec![
+        (e.clone(), vec![]),
+        (e.clone(), vec![DeleteNodes(vec![], true)]),
+        (e.clone(), vec![DeleteNodes(vec![], false), DeleteEdges(vec![], false)]),
+        (e.clone(), vec![DeleteNodes(vec![0], true)]),                 // out of range on the empty diagram
+        (e.clone(), vec![DeleteEdges(vec![0], false)]),
+        (e.clone(), vec![DeleteNodes(vec![usize::MAX], false)]),
+        (e.clone(), vec![NewNode(1), DeleteNodes(vec![1], true)]),     // id == length
+        (e.clone(), vec![NewNode(1), DeleteNodes(vec![0, 1], true)]),  // valid then invalid
+        (e.clone(), vec![NewNode(1), DeleteNodes(vec![0, 0, 0], true), NewNode(2), NewNode(3), DeleteNodes(vec![1, 0, 1], true)]),
+        (e.clone(), vec![NewEdge(5, vec![], vec![]), DeleteEdges(vec![1], false)]),
+        (e.clone(), vec![NewEdge(5, vec![], vec![]), DeleteEdges(vec![0, 0], false), NewEdge(6, vec![], vec![]), AddSource(0, 9), AddTarget(0, 8)]),
+        // identifiers are reused after a deletion: the next new node gets the new length
+        (e.clone(), vec![NewNode(1), NewNode(2), NewNode(3), DeleteNodes(vec![1], false), NewNode(4), Unify(2, 0), DeleteNodes(vec![0], true), NewNode(5)]),
+        // the copy/multiply example of the module docs, then deletions through it
+        (
+            e.clone(),
+            vec![
+                NewOperation(70, vec![1], vec![2, 3]),
+                NewOperation(71, vec![4, 5], vec![6]),
+                Unify(1, 3),
+                Unify(2, 4),
+                PushInterface(vec![0], vec![5]),
+                DeleteNodes(vec![2], true),
+                DeleteEdges(vec![0], false),
+                AddSource(0, 9),
+                AddTarget(0, 10),
+                DeleteNodes(vec![5, 0, 5], true),
+            ],
+        ),
+        // unification pairs with the left / the right / both / neither end deleted
+        (
+            e.clone(),
+            vec![NewNode(1), NewNode(2), NewNode(3), NewNode(4), Unify(0, 1), Unify(1, 0), Unify(2, 3), Unify(3, 3), Unify(0, 3), Unify(2, 2), DeleteNodes(vec![0], true), DeleteNodes(vec![2], true)],
+        ),
+        (e.clone(), vec![NewNode(1), NewNode(2), Unify(0, 1), DeleteNodes(vec![1], true)]), // only the right end
+        (e.clone(), vec![NewNode(1), NewNode(2), Unify(0, 1), DeleteNodes(vec![0], true)]), // only the left end
+        (e.clone(), vec![NewNode(1), NewNode(2), Unify(1, 0), DeleteNodes(vec![0, 1], true)]),
+        // interface entries: repeated, only in sources, only in targets
+        (e.clone(), vec![NewNode(1), NewNode(2), NewNode(3), PushInterface(vec![2, 2, 0], vec![]), PushInterface(vec![], vec![1, 2, 1]), DeleteNodes(vec![2], false), DeleteNodes(vec![0], false)]),
+        (e.clone(), vec![NewNode(1), NewNode(2), PushInterface(vec![], vec![1, 0]), DeleteNodes(vec![0], false)]),
+        (e.clone(), vec![NewNode(1), NewNode(2), PushInterface(vec![1, 0], vec![]), DeleteNodes(vec![0], false)]),
+        // suffix / prefix / everything / nothing
+        (e.clone(), vec![NewOperation(7, vec![1, 2], vec![3, 4]), PushInterface(vec![0, 3], vec![3, 1]), Unify(3, 0), DeleteNodes(vec![3], true)]),
+        (e.clone(), vec![NewOperation(7, vec![1, 2], vec![3, 4]), PushInterface(vec![0, 3], vec![3, 1]), Unify(0, 3), DeleteNodes(vec![2, 3], true)]),
+        (e.clone(), vec![NewOperation(7, vec![1, 2], vec![3, 4]), PushInterface(vec![0, 3], vec![3, 1]), Unify(0, 3), DeleteNodes(vec![0], true)]),
+        (e.clone(), vec![NewOperation(7, vec![1, 2], vec![3, 4]), PushInterface(vec![0, 3], vec![3, 1]), Unify(0, 3), DeleteNodes(vec![3, 2, 1, 0], true), NewNode(9)]),
+        (e.clone(), vec![NewOperation(7, vec![1, 2], vec![3, 4]), DeleteNodes(vec![], true), DeleteEdges(vec![], false)]),
+        // edges: first / middle / last / all / duplicates / unsorted, then edit a renumbered edge
+        (
+            e.clone(),
+            vec![NewNode(1), NewEdge(50, vec![0], vec![]), NewEdge(51, vec![], vec![0]), NewEdge(52, vec![0, 0], vec![0]), NewEdge(53, vec![], vec![]), DeleteEdges(vec![1], false), AddSource(1, 2), DeleteEdges(vec![2, 0, 2], false), AddTarget(0, 3)],
+        ),
+        (e.clone(), vec![NewEdge(50, vec![], vec![]), NewEdge(51, vec![], vec![]), NewEdge(52, vec![], vec![]), DeleteEdges(vec![0], false)]),
+        (e.clone(), vec![NewEdge(50, vec![], vec![]), NewEdge(51, vec![], vec![]), NewEdge(52, vec![], vec![]), DeleteEdges(vec![2], false)]),
+        (e.clone(), vec![NewEdge(50, vec![], vec![]), NewEdge(51, vec![], vec![]), NewEdge(52, vec![], vec![]), DeleteEdges(vec![2, 1, 0, 1], false), NewEdge(53, vec![], vec![])]),
+        (e.clone(), vec![NewEdge(50, vec![], vec![]), NewEdge(51, vec![], vec![]), DeleteEdges(vec![1, 2], false)]),
+        (e.clone(), vec![NewEdge(50, vec![], vec![]), NewEdge(51, vec![], vec![]), DeleteEdges(vec![2, 1], false)]),
+        // relabelling: right length, too short, too long, on empty
+        (e.clone(), vec![WithNodes(vec![]), WithEdges(vec![]), WithNodes(vec![1]), WithEdges(vec![1]), MapNodes(3), MapEdges(3)]),
+        (
+            e.clone(),
+            vec![NewOperation(7, vec![1, 2], vec![3]), Unify(0, 2), PushInterface(vec![1], vec![2]), WithNodes(vec![9, 8, 7]), WithNodes(vec![9, 8]), WithNodes(vec![9, 8, 7, 6]), WithEdges(vec![5]), WithEdges(vec![]), WithEdges(vec![5, 6]), MapNodes(1), MapEdges(2), DeleteNodes(vec![1], true)],
+        ),
+        // an edge that loses all its nodes stays; an edge mentioning a node many times
+        (e.clone(), vec![NewNode(1), NewEdge(50, vec![0, 0, 0, 0], vec![0, 0]), NewNode(2), AddSource(0, 3), DeleteNodes(vec![0], true), DeleteNodes(vec![0, 1], true), AddTarget(0, 4)]),
+    ];
+    // from reached diagrams
+    let cd = corner_diagrams();
+    v.push((cd[8].clone(), vec![DeleteNodes(vec![3], true), NewNode(99), Unify(3, 0), DeleteEdges(vec![1], false), AddSource(1, 98), DeleteNodes(vec![0, 4, 0], true)]));
+    v.push((cd[9].clone(), vec![DeleteNodes(vec![4], false), DeleteNodes(vec![0], false), DeleteEdges(vec![0, 2], false), DeleteNodes(vec![3], false)]));
+    // long: 64/70/130 nodes merged in binomial-tree order, delete every other / a word boundary / a suffix
+    for m in cd.iter().filter(|m| m.nodes.len() >= 64) {
+        let n = m.nodes.len();
+        v.push((m.clone(), vec![DeleteNodes((0..n).step_by(2).collect(), true), NewNode(5), DeleteNodes(vec![0], true)]));
+        v.push((m.clone(), vec![DeleteNodes(vec![63, 0, n - 1, 31, 32, 63], true), DeleteEdges(vec![1], false), DeleteNodes((10..n - 6).rev().collect(), true)]));
+        v.push((m.clone(), vec![DeleteNodes((n - 33..n).collect(), true), DeleteNodes(vec![n - 33], true)]));
+        v.push((m.clone(), vec![DeleteNodes(vec![n], false)]));
+    }
+    if let Some(m) = cd.iter().find(|m| m.edges.len() >= 100) {
+        let k = m.edges.len();
+        v.push((m.clone(), vec![DeleteEdges(vec![63, 64, 65, 0, k - 1, 64], false), AddSource(62, 9), DeleteEdges((0..k - 5).step_by(2).collect(), false), DeleteNodes(vec![1], true)]));
+        v.push((m.clone(), vec![DeleteEdges(vec![k], false)]));
+    }
+    v
+}
+
+pub fn run(ctx: &mut Ctx) {
+    if let Some((name, input)) = ctx.replay.clone() {
+        for (n, c) in CHECKS {
+            if *n == name {
+                c(ctx, &input);
+            }
+        }
+        return;
+    }
+    let thorough = ctx.thorough();
+
+    // ---- (a) corner cases -------------------------------------------------------------------
+    for (init, ops) in corner_scripts() {
+        let has_iface = ops.iter().any(|o| matches!(o, Op::PushInterface(..)));
+        chk_script(ctx, &script_input(true, &init, &ops));
+        if !has_iface {
+            chk_script(ctx, &script_input(false, &init, &ops));
+        }
+    }
+    let corners = corner_diagrams();
+    for d in &corners {
+        chk_serde(ctx, &json!({"d": d.json()}));
+        let n = d.nodes.len();
+        let k = d.edges.len();
+        // every id list style on every corner diagram
+        let mut lists: Vec<Vec<usize>> = vec![vec![], vec![n], vec![n + 1], vec![usize::MAX]];
+        if n > 0 {
+            lists.extend(vec![vec![0], vec![n - 1], vec![n - 1, 0], vec![0; n + 2], (0..n).collect(), (0..n).rev().collect(), (0..n).chain(0..n).collect(), vec![0, n], vec![n, 0], (n / 2..n).collect(), (0..n / 2 + 1).collect()]);
+        }
+        for ids in &lists {
+            chk_delete_nodes(ctx, &json!({"d": d.json(), "ids": ids}));
+        }
+        let mut lists: Vec<Vec<usize>> = vec![vec![], vec![k], vec![k + 1], vec![usize::MAX]];
+        if k > 0 {
+            lists.extend(vec![vec![0], vec![k - 1], vec![k - 1, 0], vec![0; k + 2], (0..k).collect(), (0..k).rev().collect(), vec![0, k], vec![k, 0], (k / 2..k).collect(), (0..k / 2 + 1).collect()]);
+        }
+        for ids in &lists {
+            chk_delete_edges(ctx, &json!({"d": d.json(), "ids": ids}));
+        }
+        // relabelling with every length around the right one
+        for l in [0usize, n.saturating_sub(1), n, n + 1, 2 * n + 1] {
+            chk_relabel(ctx, &json!({"d": d.json(), "op": Op::WithNodes((0..l).map(|i| 3000 + i as u16).collect()).json()}));
+        }
+        for l in [0usize, k.saturating_sub(1), k, k + 1, 2 * k + 1] {
+            chk_relabel(ctx, &json!({"d": d.json(), "op": Op::WithEdges((0..l).map(|i| 4000 + i as u16).collect()).json()}));
+        }
+        chk_relabel(ctx, &json!({"d": d.json(), "op": Op::MapNodes(2).json()}));
+        chk_relabel(ctx, &json!({"d": d.json(), "op": Op::MapEdges(2).json()}));
+    }
+    // the README document, embedded and (if the file is around) as found in the library checkout
+    chk_serde_readme(ctx, &json!({"text": README_JSON, "expect": readme_expect()}));
+    let readme_path = std::env::var("OHG_README").unwrap_or_else(|_| "/tmp/bb/F-repo/README.md".to_string());
+    if let Some(block) = std::fs::read_to_string(&readme_path).ok().and_then(|t| readme_block(&t)) {
+        chk_serde_readme(ctx, &json!({"text": block, "expect": readme_expect()}));
+    }
+
+    // ---- (b) exhaustive, tiny -----------------------------------------------------------------
+    // every history of `depth` steps over the finite alphabet, from the empty diagram and from two reached diagrams
+    let depth = if thorough { 4 } else { 3 };
+    enumerate_scripts(ctx, true, &L::empty(), depth);
+    enumerate_scripts(ctx, false, &L::empty(), 3);
+    let start = corners[7].clone();
+    enumerate_scripts(ctx, true, &start, if thorough { 3 } else { 2 });
+    enumerate_scripts(ctx, false, &start, 2);
+    // every deletion list on every tiny diagram with one hyperedge, interfaces and at most one pending unification
+    let max_n = if thorough { 3 } else { 2 };
+    for n in 0..=max_n {
+        let id_len = if n == 3 { 2 } else { 3 };
+        let srcs = all_lists(n, 2);
+        let tgts = all_lists(n, 1);
+        let mut qs: Vec<Vec<(usize, usize)>> = vec![vec![]];
+        for a in 0..n {
+            for b in 0..n {
+                qs.push(vec![(a, b)]);
+            }
+        }
+        let idss = all_lists(n + 1, id_len);
+        for src in &srcs {
+            for tgt in &tgts {
+                for s in &srcs {
+                    for t in &tgts {
+                        for q in &qs {
+                            let d = L {
+                                nodes: (0..n).map(|i| 10 + i as u16).collect(),
+                                edges: vec![50],
+                                src: vec![src.clone()],
+                                tgt: vec![tgt.clone()],
+                                ql: q.iter().map(|p| p.0).collect(),
+                                qr: q.iter().map(|p| p.1).collect(),
+                                s: s.clone(),
+                                t: t.clone(),
+                            };
+                            let dj = d.json();
+                            for ids in &idss {
+                                chk_delete_nodes(ctx, &json!({"d": dj, "ids": ids}));
+                            }
+                        }
+                    }
+                }
+            }
+        }
+    }
+    // every deletion list of length <= 4 on diagrams with 0..4 hyperedges
+    for k in 0..=4usize {
+        let d = L {
+            nodes: vec![10, 11],
+            edges: (0..k).map(|i| 50 + i as u16).collect(),
+            src: (0..k).map(|i| vec![i % 2; i]).collect(),
+            tgt: (0..k).map(|i| vec![(i + 1) % 2, i % 2]).collect(),
+            ql: vec![0],
+            qr: vec![1],
+            s: vec![1, 0],
+            t: vec![0],
+        };
+        for ids in all_lists(k + 1, if thorough { 4 } else { 3 }) {
+            chk_delete_edges(ctx, &json!({"d": d.json(), "ids": ids}));
+        }
+    }
+    // every relabelling length 0..5 on 0..3 nodes / edges
+    for n in 0..=3usize {
+        let d = L {
+            nodes: (0..n).map(|i| 10 + i as u16).collect(),
+            edges: (0..n).map(|i| 50 + i as u16).collect(),
+            src: (0..n).map(|i| vec![i]).collect(),
+            tgt: (0..n).map(|i| vec![(i + 1) % n]).collect(),
+            ql: (0..n).collect(),
+            qr: (0..n).rev().collect(),
+            s: (0..n).collect(),
+            t: (0..n).rev().collect(),
+        };
+        for l in 0..=5usize {
+            chk_relabel(ctx, &json!({"d": d.json(), "op": Op::WithNodes((0..l).map(|i| 300 + i as u16).collect()).json()}));
+            chk_relabel(ctx, &json!({"d": d.json(), "op": Op::WithEdges((0..l).map(|i| 400 + i as u16).collect()).json()}));
+        }
+    }
+
+    // ---- (c) seeded random -------------------------------------------------------------------
+    let mut g = Gen::new();
+    let n_scripts = ctx.budget(6000, 150000);
+    for i in 0..n_scripts {
+        let open = i % 3 != 0;
+        let init = match i % 5 {
+            0 | 1 => L::empty(),
+            2 => gen_diagram(&mut ctx.rng, &mut g, 4, 3),
+            3 => gen_diagram(&mut ctx.rng, &mut g, 8, 5),
+            _ => corners[ctx.rng.below(11)].clone(),
+        };
+        let len = if i % 50 == 0 { ctx.rng.range(30, 60) } else { ctx.rng.range(1, 14) };
+        let ops = gen_script(&mut ctx.rng, &mut g, open, &init, len, i % 2 == 0);
+        chk_script(ctx, &script_input(open, &init, &ops));
+    }
+    let n_single = ctx.budget(3000, 60000);
+    for i in 0..n_single {
+        let d = if i % 7 == 0 { gen_diagram(&mut ctx.rng, &mut g, 70, 6) } else { gen_diagram(&mut ctx.rng, &mut g, 6, 4) };
+        let oob = ctx.rng.chance(1, 8);
+        let ids = gen_ids(&mut ctx.rng, d.nodes.len(), oob);
+        chk_delete_nodes(ctx, &json!({"d": d.json(), "ids": ids}));
+        let oob = ctx.rng.chance(1, 8);
+        let ids = gen_ids(&mut ctx.rng, d.edges.len(), oob);
+        chk_delete_edges(ctx, &json!({"d": d.json(), "ids": ids}));
+        if i % 4 == 0 {
+            chk_serde(ctx, &json!({"d": d.json()}));
+        }
+    }
+
+    ctx.notes.push(
+        "rule: editing histories = (level open|hypergraph, initial diagram, list of builder steps) replayed in lockstep on the real lax::OpenHypergraph / lax::Hypergraph<u16,u16> and on a plain list model; whole raw state compared after every step, returned ids/witness compared, out-of-range deletion must panic (script ends there), serde clauses on every final state. \
+         corners: ~50 fixed histories (empty diagram, id==len, usize::MAX, duplicate/unsorted/suffix/prefix/all/none lists, unification pairs with left/right/both ends deleted, repeated interface entries, zero-arity and node-less edges, id reuse after deletion, editing renumbered edges, 64/70/130 nodes merged in binomial-tree order, 130 edges) + 15 corner diagrams x every id-list style x {delete_nodes, delete_edges, relabel lengths}. \
+         exhaustive: all histories of depth 3 (quick) / 4 (thorough, open level) from the empty diagram and depth 2/3 from a 3-node diagram over the alphabet {new_node, new_edge with <=1 source and <=1 target, new_operation arities 0..1 x 0..1, add_edge_source/target, unify all pairs, push_interface, delete_nodes all lists len<=2 over 0..=n (incl. out of range), delete_edges all lists len<=2 over 0..=k, map_nodes} with at most 4 nodes, 3 edges, 2 pending unifications; all delete_nodes lists of length <=3 over 0..=n on all diagrams with n<=2 (thorough: n=3 with lists <=2) nodes, one edge with <=2 sources and <=1 target, <=2 inputs, <=1 output, <=1 pending unification; all delete_edges lists of length <=3 (thorough 4) over 0..=k, k<=4; with_nodes/with_edges with every length 0..5 on 0..3 items. \
+         random: 6000/150000 histories of 1..14 (2%: 30..60) steps from the empty diagram, random diagrams (<=8 nodes, <=5 edges) or corner diagrams; 3000/60000 single deletions on random diagrams of up to 70 nodes; labels are mostly unique tokens. \
+         non-trivial: script = some non-creating step is applied to a non-empty diagram; delete_* = non-empty diagram and non-empty id list; relabel/serde = non-empty diagram."
+            .into(),
+    );
+}
